@@ -93,6 +93,33 @@ let gc_line (w : ostring list) : bool =
   | ["gcollect"] -> run GCollect; true
   | _ -> false
 
+(* ---- string builder lines (same protocol as probes/sb_probe.c): sbnew <cap> | cstr <n> | chr *)
+let sb_state : sbuf option ref = ref None
+let sb_k = ref 0
+let sb_answer (s : sbuf) =
+  let b = Buffer.create 64 in
+  List.iter (fun x -> Buffer.add_char b (Char.chr (int_of_n x))) s.b_text;
+  let txt = Buffer.contents b in
+  Printf.sprintf "len=%d cap=%s nul=1 strlen=%d h=%s\n" (int_of_n s.b_len) (string_of_int (int_of_n s.b_cap)) (String.length txt) (fnv txt)
+let sb_line (w : ostring list) : bool =
+  let fin r = (match r with
+     | SOk s -> sb_state := Some s; print_string (sb_answer s)
+     | SCrash -> sb_state := None; print_string "crash\n"
+     | SLoop -> sb_state := None; print_string "loop\n") in
+  match w with
+  | ["sbnew"; c] -> sb_k := 0; fin (SOk (sb_new fmtsb_params (n_of_int (int_of_string c)))); true
+  | ["cstr"; m] ->
+      (match !sb_state with
+       | None -> print_string "skip\n"
+       | Some s -> let m = int_of_string m in
+           let piece = List.init m (fun i -> n_of_int (97 + (!sb_k + i) mod 26)) in
+           incr sb_k; fin (append_cstr fmtsb_params s piece)); true
+  | ["chr"] ->
+      (match !sb_state with
+       | None -> print_string "skip\n"
+       | Some s -> let c = n_of_int (65 + !sb_k mod 26) in incr sb_k; fin (append_char fmtsb_params s c)); true
+  | _ -> false
+
 (* one modelled operation on the current state: Ok (state', output, notes) or Stop (answer line) *)
 type o1 = Ok1 of dyn * out * string | Stop1 of string
 let exec1 (d : dyn) (o : op) : o1 =
@@ -133,6 +160,7 @@ let dyn_main () =
     match words line with
     | [] -> ()
     | w when gc_line w -> ()
+    | w when sb_line w -> ()
     | ["new"; k] -> let d = dyn_new rt_params (kind_of_code (int_of_string k)) in
         st := Some d; print_string ("unit" ^ str_state d ^ "\n")
     | ["newcap"; k; c] ->
